@@ -90,7 +90,7 @@ func VerifC02Canonical() {
 		lit := MustNewSet(NewTuple(NewAttr("a", x), NewAttr("b", y), NewAttr("c", y)))
 		l := MustNewSet(NewTuple(NewAttr("b", y), NewAttr("c", y)))
 		r := MustNewSet(NewTuple(NewAttr("a", x)))
-		j, err := NewJoinExpr(parser.Scanner{}, l, r).Eval(context.Background(), EmptyScope)
+		j, err := NewJoinExpr(*parser.NewScanner(""), l, r).Eval(context.Background(), EmptyScope)
 		verifAssert("join-ok", err == nil)
 		if err == nil {
 			verifInterchangeable("relation-join-vs-literal", lit, j)
